@@ -71,6 +71,7 @@ type nw struct {
 	events     []string
 	prevBind   map[string]string // podID/family -> "eni|ip" (bindings before the current transition)
 	prevKnown  map[string][2]int // interface -> addresses {v4, v6} the Node CR recorded before the current transition
+	prevCloud  map[string][2]int // interface -> addresses {v4, v6} the cloud held before the current transition
 	logMark    int
 	noDaemon   bool
 	xformed    bool
@@ -199,6 +200,12 @@ func (w *nw) Apply(x *vrt.Exec, evn string) {
 	if before != nil {
 		for id, e := range before.Status.NetworkInterfaces {
 			w.prevKnown[id] = [2]int{len(e.IPv4), len(e.IPv6)}
+		}
+	}
+	w.prevCloud = map[string][2]int{}
+	for id, e := range w.cloud.ENIs {
+		if !e.Deleted {
+			w.prevCloud[id] = [2]int{len(e.V4), len(e.V6)}
 		}
 	}
 	w.logMark = len(w.cloud.Log)
@@ -603,28 +610,35 @@ func (w *nw) checkC08Calls(x *vrt.Exec) {
 	n := w.node()
 	hist := strings.Join(w.events, " ; ")
 	secondarySlots := w.cfg.Adapters - 1
-	added := map[string][2]int{}
+	described := false
+	lostReply := map[string]bool{}
 	for _, c := range w.cloud.Log[w.logMark:] {
 		switch c.Op {
+		case "Describe":
+			if !c.Err {
+				described = true
+			}
 		case "Assign4", "Assign6":
-			// (a) what the controller ASKS for, judged by what it knows: addresses its record held for the interface before
-			// this transition + what this transition already added + this request
+			// (a) what the controller ASKS for. The cloud refuses an assign beyond the interface's limit (Fault cloud-limit);
+			// that refusal is the controller's fault when its knowledge of the interface was current: it described the
+			// instance earlier in this transition, or its record matched the cloud when the transition began, and every
+			// effect since was acknowledged to it
 			fam := 0
 			if c.Op == "Assign6" {
 				fam = 1
 			}
-			k := w.prevKnown[c.ENI]
-			ask := k[fam] + added[c.ENI][fam] + c.N4 + c.N6
-			if c.Fault != "idempotent-replay" && ask > w.cfg.PerAdapter {
-				x.Failf("C08/assign-request-over-per-adapter-limit", "%s: the record held %d addresses for %s, this transition had added %d, the request makes %d, limit %d; %s", c.String(), k[fam], c.ENI, added[c.ENI][fam], ask, w.cfg.PerAdapter, hist)
+			if c.Fault == "cloud-limit" {
+				k := w.prevKnown[c.ENI]
+				current := described || (k[fam] == w.prevCloud[c.ENI][fam] && !lostReply[c.ENI])
+				if current {
+					x.Failf("C08/assign-request-over-per-adapter-limit", "%s refused by the cloud: the interface already holds %d addresses of that family (limit %d) and the controller's knowledge was current (record before the transition %d, cloud %d, described in this transition: %v); %s", c.String(), cloudCount(w.cloud.ENIs[c.ENI], fam), w.cfg.PerAdapter, k[fam], w.prevCloud[c.ENI][fam], described, hist)
+				}
+			}
+			if c.Fault == "after" {
+				lostReply[c.ENI] = true
 			}
 			if c.Err && c.Fault != "after" {
 				continue
-			}
-			if c.Fault != "idempotent-replay" {
-				a := added[c.ENI]
-				a[fam] += c.N4 + c.N6
-				added[c.ENI] = a
 			}
 			// (b) what the cloud ended up with (the simulated cloud refuses beyond its own limit, so this guards the simulator)
 			ce := w.cloud.ENIs[c.ENI]
@@ -641,15 +655,9 @@ func (w *nw) checkC08Calls(x *vrt.Exec) {
 			if c.N4 > ecsBatchSize || c.N6 > ecsBatchSize {
 				x.Failf("C08/assign-over-batch", "%s exceeds the batch size %d", c.String(), ecsBatchSize)
 			}
-		case "UnAssign4", "UnAssign6":
-			if !c.Err || c.Fault == "after" {
-				fam := 0
-				if c.Op == "UnAssign6" {
-					fam = 1
-				}
-				a := added[c.ENI]
-				a[fam] -= len(c.IPs)
-				added[c.ENI] = a
+		case "UnAssign4", "UnAssign6", "Detach", "Delete":
+			if c.Fault == "after" {
+				lostReply[c.ENI] = true
 			}
 		case "Create":
 			if c.N4 > w.cfg.PerAdapter || c.N6 > w.cfg.PerAdapter {
@@ -672,6 +680,16 @@ func (w *nw) checkC08Calls(x *vrt.Exec) {
 		}
 	}
 	_ = n
+}
+
+func cloudCount(e *simcloud.CENI, fam int) int {
+	if e == nil {
+		return 0
+	}
+	if fam == 1 {
+		return len(e.V6)
+	}
+	return len(e.V4)
 }
 
 func (w *nw) detachedByDrift(id string) bool {
